@@ -287,7 +287,15 @@ func (e *Explorer) runOnce(x *Exec) (belongs bool) {
 				case Infra:
 					panic(v)
 				default:
-					panic(Infra{fmt.Sprintf("uncaught panic in check body (choices %v): %v\n%s", x.Choices(), r, debug.Stack())})
+					st := string(debug.Stack())
+					if fn := libraryPanicFrame(st); fn != "" {
+						// a panic raised inside the library escaped a part of the harness that is not
+						// individually guarded: that is a crash of the code under test, not of the harness
+						x.rViol = append(x.rViol, &Violation{Property: x.Property, Family: x.Family, Entry: "library", Symptom: "panic", Class: "unguarded:" + fn,
+							Detail: fmt.Sprintf("%v (in %s)", r, fn), Witness: map[string]interface{}{"stack": truncS(st, 1500)}, Prefix: x.prefix, Count: 1})
+						return
+					}
+					panic(Infra{fmt.Sprintf("uncaught panic in check body (choices %v): %v\n%s", x.Choices(), r, st)})
 				}
 			}
 		}()
@@ -466,4 +474,29 @@ func Replay(property, family, tier string, prefix, choices []int, body func(x *E
 		v.Choices = choices
 	}
 	return x.rViol
+}
+
+// libraryPanicFrame returns the library function in which a panic was raised (the first frame below
+// the runtime's panic frames), or "" if the panic was raised by harness code.
+func libraryPanicFrame(stack string) string {
+	lines := strings.Split(stack, "\n")
+	for i := 0; i < len(lines); i++ {
+		if strings.HasPrefix(lines[i], "panic(") {
+			// skip further runtime frames (runtime.goPanicIndex, runtime.panicmem, ...)
+			for j := i + 2; j+1 < len(lines); j += 2 {
+				fn := lines[j]
+				if strings.HasPrefix(fn, "runtime.") || strings.HasPrefix(fn, "panic(") || strings.HasPrefix(fn, "reflect.") {
+					continue
+				}
+				if strings.HasPrefix(fn, "github.com/elastic/go-structform") && !strings.Contains(fn, "/verifrt.") {
+					if k := strings.Index(fn, "("); k > 0 {
+						fn = fn[:k]
+					}
+					return strings.TrimPrefix(fn, "github.com/elastic/go-structform/")
+				}
+				return ""
+			}
+		}
+	}
+	return ""
 }
